@@ -17,13 +17,14 @@ LEVEL_NOTE = "equality with the upper-case run is the oracle; no model involved"
 RULE = ("case maps: all lower, per-record random (each record wholly lower or upper), per-letter random, 'overhangs only lower'; applied "
         "to (a) generated assemblies for every supported geometry (complete chains), (b) C03 overhang graphs of 1..3 modules (products, "
         "InvalidSequence, DuplicateModules, MissingModule outcomes), (c) typing queries of all 85 kit classes and generic classes on "
-        "own instances, other instances, instances with an extra cutter site, near-misses. Non-trivial = the case map changes at least "
+        "own instances, other instances, instances with an extra cutter site, near-misses, (d) every plasmid of the five bundled registries under the class the registry types it as. Non-trivial = the case map changes at least "
         "one letter of at least one record and the upper-case outcome is not a rejection of every record (typing: the record is accepted "
         "in upper case); distinct = distinct (workload item, case map).")
 ASSUMPTIONS = ["sequences over ACGT/acgt", "exceptions compared by class and upper-cased start_overhang; DuplicateModules by the set of module ids"]
-FLOORS = {"c18_assembly_comparisons": 1000, "c18_typing_comparisons": 3000, "c18_error_outcomes_compared": 200, "c18_product_outcomes_compared": 300}
+FLOORS = {"c18_assembly_comparisons": 1000, "c18_typing_comparisons": 3000, "c18_error_outcomes_compared": 200, "c18_product_outcomes_compared": 300, "c18_registry_plasmids_typed": 300}
 MUST_REACH = ["AssemblyManager._generate_modules_map", "DNARegex._transcribe"]
 BUDGET_S = {"quick": 900, "thorough": 7200}
+NEEDS_REGISTRIES = True
 MAPS = ["lower", "per-record", "per-letter", "per-letter", "mixed-upper-lower-halves"]
 
 
@@ -43,6 +44,9 @@ def cases(tier, seed):
         out.append({"kind": "typing", "cls": gen.class_name(c), "seed": seed, "count": per})
     for e in gen.enzyme_names():
         out.append({"kind": "typing-generic", "enzyme": e, "seed": seed, "count": per})
+    # the real plasmids of the bundled registries (official overhangs, kb-sized backbones) under the class the registry types them as
+    for j in range(0, 372, 12):
+        out.append({"kind": "typing-registry", "from": j, "count": 12, "seed": seed, "variants": 3 if tier == "quick" else 12})
     return out
 
 
@@ -143,10 +147,10 @@ def region_map(cls, text, inside_upper=True):
     return "".join((c.upper() if (j in inside) == inside_upper else c.lower()) for j, c in enumerate(text))
 
 
-def compare_typing(ctx, rng, cls, text, mode, linear=False):
+def compare_typing(ctx, rng, cls, text, mode, linear=False, hows=None):
     base = typing_outcome(cls, text.upper(), linear)
-    variants = [(how, apply_map(rng, [text], how)[0]) for how in ("lower", "per-letter", "per-letter", "mixed-upper-lower-halves")]
-    for flag, name in ((True, "structure-upper-rest-lower"), (False, "structure-lower-rest-upper")):
+    variants = [(how, apply_map(rng, [text], how)[0]) for how in (hows or ("lower", "per-letter", "per-letter", "mixed-upper-lower-halves"))]
+    for flag, name in ((True, "structure-upper-rest-lower"), (False, "structure-lower-rest-upper")) if hows is None else ():
         v = region_map(cls, text, flag)
         if v is not None:
             variants.append((name, v))
@@ -181,6 +185,14 @@ def execute(mat, ctx):
             texts = [C03._plasmid("BsaI", "V", s["v"][0], s["v"][1])] + [C03._plasmid("BsaI", "M", a, b) for a, b in s["mods"]]
             compare_assembly(ctx, rng, V, M, texts, "graph v=%s mods=%s" % (s["v"], s["mods"]))
         ctx.sample({"kind": "graph", "example": mat["sets"][0]}, cap=1)
+    elif kind == "typing-registry":
+        from .. import regs
+        rng = gen.rng_for(mat["seed"], PROP, kind, mat["from"])
+        for name, key, cls, record in regs.items()[mat["from"]:mat["from"] + mat["count"]]:
+            hows = ["lower", "mixed-upper-lower-halves"] + ["per-letter"] * (mat["variants"] - 2)
+            ctx.count("c18_registry_plasmids_typed")
+            compare_typing(ctx, rng, cls, str(record.seq), "registry", hows=hows)
+        ctx.sample({"kind": kind, "from": mat["from"]}, cap=1)
     else:
         classes = gen.concrete_kit_classes()
         targets = [gen.class_by_name(mat["cls"])] if kind == "typing" else list(gen.generic_classes(mat["enzyme"]))
